@@ -78,6 +78,10 @@ class Prop(common.PropertyCheck):
         for i in range(self.budget(12, 100)):
             yield {'N': rng.choice([7, 40]), 'D': rng.randrange(2, 5), 'data': 'zeros', 'cont': ['array_float', 'array_int', 'sample'][i % 3],
                    'chform': ['none', 'pos0', 'list', 'perm'][i % 4], 'seed': rng.randrange(1 << 30)}
+        # a handful of events of 32-bit magnitude held in wide integer containers (their product leaves the 64-bit range)
+        for i in range(12):
+            yield {'N': [2, 3, 4][i % 3], 'D': 2, 'data': 'wide32', 'cont': 'array_int', 'idt': ['int64', 'uint64', 'uint32'][(i // 3) % 3],
+                   'chform': ['none', 'pos0', 'list', 'perm'][i % 4], 'seed': 9100 + i}
 
     def run_big(self, case):
         """event counts around multiples of 2**16 (block-wise implementations): float reference with exact summation"""
@@ -131,6 +135,8 @@ class Prop(common.PropertyCheck):
             ev[:, 0] = 0
             if D > 1:
                 ev[: max(1, (4 * N) // 5), 1] = 0
+        elif kind == 'wide32':
+            ev = r.randint(2000000000, 4000000000, size=(N, D), dtype=np.int64)
         elif kind == 'bright':
             # a 16-bit instrument with a bright channel: central values above half of the container's maximum
             ev = r.randint(40000, 65535, size=(N, D))
@@ -150,7 +156,7 @@ class Prop(common.PropertyCheck):
                 d = (ev * 30).astype(np.int16) if kind == 'negative' else \
                     ev.astype(np.uint16) if kind == 'bright' or r.rand() < 0.5 else (ev // 8).astype(np.uint8) if r.rand() < 0.5 else (ev * 30).astype(np.int16)
             else:
-                d = ev.astype(np.int64) if cont == 'array_int' else ev.astype(np.float64) + r.rand(N, D) * (0 if kind in ('ties', 'const', 'modal', 'bright', 'zeros', 'tight') else 1)
+                d = ev.astype(case.get('idt', 'int64')) if cont == 'array_int' else ev.astype(np.float64) + r.rand(N, D) * (0 if kind in ('ties', 'const', 'modal', 'bright', 'zeros', 'tight') else 1)
                 if case.get('scale') and cont == 'array_float':
                     d = d * case['scale']            # the same data in other units (very small / very large magnitudes)
         else:
